@@ -9,6 +9,7 @@ import BV.Drv.C06
 import BV.Drv.C06Src
 import BV.Drv.C08
 import BV.Drv.C11
+import BV.Drv.C11Src
 import BV.Drv.C09
 import BV.Drv.C10
 import BV.Drv.C12
@@ -32,6 +33,7 @@ def dispatch (line : String) : String :=
   | "c06src" :: rest => BV.Drv.C06Src.handle rest
   | "c08" :: rest => BV.Drv.C08.handle rest
   | "c11" :: rest => BV.Drv.C11.handle rest
+  | "c11src" :: rest => BV.Drv.C11Src.handle rest
   | "c09" :: rest => BV.Drv.C09.handle rest
   | "c10" :: rest => BV.Drv.C10.handle rest
   | "c12" :: rest => BV.Drv.C12.handle rest
